@@ -508,8 +508,7 @@ func containsString(path []string, rid string) bool {
 	return false
 }
 
-func (s *Subscription) unsubscribeRefs() {
-	sent := s.IsSent()
+func (s *Subscription) unsubscribeRefs(sent bool) {
 	for _, ref := range s.refs {
 		s.c.Unsubscribe(ref.sub, false, sent, 1, false)
 	}
@@ -815,7 +814,7 @@ func (s *Subscription) Dispose() {
 	s.throttle = nil
 
 	if s.resourceSub != nil {
-		s.unsubscribeRefs()
+		s.unsubscribeRefs(state == stateSent)
 		if state != stateDeleted {
 			s.resourceSub.Unsubscribe(s)
 		}
